@@ -1,3 +1,35 @@
-CHECK = {'level': 'exploration', 'rule': 'wip', 'level_text': 'wip', 'level_note': 'wip', 'technique': 'pbt', 'assumptions': [],
- 'quick': [{'pkg': 'c18', 'checks': 5, 'timeout': 600}],
- 'thorough': [{'pkg': 'c18', 'checks': 5, 'shards': 16, 'timeout': 1500}]}
+# run specification for C18 (loaded by checks_config.py)
+CHECK = {'level': 'exploration',
+ 'rule': '(a) rapid-generated operation sequences on the real connection gater (hook constructor = newConnGater + optionWithBlacklist + start): 3-6 IPs '
+         'out of 14 look-alike IPv4/IPv6 addresses, each addressed through 6 spellings (ip4, IPv4-mapped ip6 in dotted/hex/expanded form, tcp/quic, '
+         '4 peer IDs), addPenalty amounts 1-150 incl. "exactly to the threshold" and "one below", blacklist configurations in 3 spellings, queries of '
+         'InterceptPeerDial/AddrDial/Accept/Secured(in,out), listBannedPeers and the stored score; untimed (expiry 1 h) and timed (expiry 1-2 s, sweep '
+         '50-200 ms, sleeps, wait-for-expiry, 24 sequences in parallel per rapid case) plus concurrent writers/readers. (b) end-to-end scenarios of 2-3 '
+         'started p2p.Connections on distinct loopback IPs (127.0.0.2-9, ::1; security none/tls/noise; rate limit 2-6 with penalty 10-120): '
+         'undecodable and unknown-procedure request/response envelopes on raw streams, bursts within/exactly at/above the rate limit, handler-issued '
+         'ApplyPenalty/BanPeer, blacklisted peers, dials in both directions during and after the ban, third parties, legal-only traffic across '
+         'rate-window resets. Non-trivial = (timed gater) an IP crossed the threshold by accumulation, was queried while certainly banned and again '
+         'after the ban was seen over; (untimed gater) crossed by accumulation and queried while banned; (end-to-end) a ban caused by traffic with a '
+         'refused dial during the ban and an accepted one after it, or a legal-only scenario that filled a rate window exactly; (concurrent) >= 2 '
+         'racing penalties reaching the threshold. Distinct by digest of the concrete operation list',
+ 'level_text': 'Model-based property test of the penalty/ban logic: the real gater and real loopback connections are driven by generated histories '
+               'and compared after every step with a ban model with tolerance windows (banned from the crossing call until at least expiry, at most '
+               'expiry + 1 s + sweep + 3 s slack; exact outside the window, either answer inside, first "accepted" ends the ban; score restarts from '
+               'zero). Sampled, wall clock real.',
+ 'level_note': 'Production constants (24 h ban, 10 s sweep, 10 s rate window) are shortened through the verif hook: the logic, not the constants, is '
+               'tested. Whole-second expiries only (the engine keeps unix seconds). Malformed *sync* requests are represented by a handler that calls '
+               'BanPeer/ApplyPenalty like the sync handlers do; the real sync handlers need a consensus node and are not driven here.',
+ 'technique': 'property-based / model-based testing (rapid) with tolerance windows; end-to-end scenarios on loopback',
+ 'assumptions': ['an IPv4-mapped IPv6 address is the same IP as the IPv4 address',
+                 'per gate refusal: InterceptAddrDial (outbound), InterceptAccept and InterceptSecured(inbound) must each refuse a banned/blacklisted IP',
+                 'the score of an IP is not asserted while it is banned',
+                 '"the limit": messages of one procedure received from one peer (requests and responses) per counter window; all nodes use the same limit',
+                 'an end-to-end scenario is reported only if it fails in 3 consecutive attempts without a process stall > 250 ms (else inconclusive)',
+                 'a "ban should be over by now" verdict is final only if it persists over 600 further process heartbeats (>= 3 s)'],
+ 'quick': [{'pkg': 'c18', 'run': 'TestGaterUntimed|TestGaterConcurrent|TestRegress', 'checks': 3000, 'timeout': 600},
+           {'pkg': 'c18', 'run': 'TestGaterTimed', 'checks': 6, 'shrinktime': '10s', 'timeout': 600},
+           {'pkg': 'c18', 'run': 'TestE2E', 'checks': 5, 'shrinktime': '10s', 'timeout': 600}],
+ 'replay': [{'pkg': 'c18', 'run': 'TestGaterUntimed|TestGaterTimed|TestGaterConcurrent|TestE2E', 'checks': 1, 'timeout': 900}],
+ 'thorough': [{'pkg': 'c18', 'run': 'TestGaterUntimed|TestGaterConcurrent|TestRegress', 'checks': 25000, 'shards': 4, 'timeout': 1500},
+              {'pkg': 'c18', 'run': 'TestGaterTimed', 'checks': 60, 'shards': 6, 'gomaxprocs': 3, 'shrinktime': '10s', 'timeout': 1500},
+              {'pkg': 'c18', 'run': 'TestE2E', 'checks': 40, 'shards': 6, 'gomaxprocs': 4, 'shrinktime': '10s', 'timeout': 1500}]}
